@@ -273,6 +273,14 @@ def _families():
             for flag_where in ('cli-flag', 'main-flag', 'gcp-flag'):
                 for lst in ('unrelated', 'empty'):
                     yield ('flag-beside-list', (b, how, flag_where, lst))
+    # zero is a value like any other (no truncation, no tab expansion ...): a source that says 0 has set the option
+    for o in ('max-line-length', 'tabs', 'diff-stat-align-width'):
+        for where in ('main', 'gcp-new', 'gcp-old', 'feature-main', 'last-feature'):
+            yield ('zero-is-a-value', (o, where))
+    # the deprecated spelling of --true-color is a command-line option like any other
+    for where in ('main', 'gcp-new', 'feature-main'):
+        for val in ('never', 'always'):
+            yield ('alias-24-bit-color', (where, val))
     # values that git -c accepts like a config file does: a key without a value (true), an empty value, a number with a suffix
     for shape in ('bare', 'empty', 'suffix'):
         for fmt_ in ('new', 'old'):
@@ -520,6 +528,40 @@ def build(family, params, defaults):
         p.expected = 'true' if truth else 'false'
         p.why = 'GIT_CONFIG_PARAMETERS (git -c delta.%s=%s) overrides the [delta] section; %r is one of git\'s spellings of %s' % (o, spelling, spelling, truth)
         p.nsources = 2
+    elif family == 'zero-is-a-value':
+        o, where = params
+        p = Placement(o)
+        if where == 'feature-main':
+            p.main['features'] = 'f1'
+            p.sections['f1'] = {o: '0'}
+            p.why = 'the enabled feature f1 sets %s = 0; the built-in default is another number' % o
+        elif where == 'last-feature':
+            p.main['features'] = 'f1 f2'
+            p.sections['f1'] = {o: '7'}
+            p.sections['f2'] = {o: '0'}
+            p.why = 'features "f1 f2": the last-listed f2 sets %s = 0, f1 says 7' % o
+        else:
+            put_source(p, o, where, '0')
+            p.main['features'] = 'f1'
+            p.sections['f1'] = {o: '9'}
+            if where != 'main':
+                p.main[o] = '5'
+            p.why = '%s says %s = 0, lower-priority sources say other numbers' % (where, o)
+        p.expected = '0'
+        p.nsources = 2
+    elif family == 'alias-24-bit-color':
+        where, val = params
+        p = Placement('true-color')
+        other = 'always' if val == 'never' else 'never'
+        if where == 'feature-main':
+            p.main['features'] = 'f1'
+            p.sections['f1'] = {'true-color': other}
+        else:
+            put_source(p, 'true-color', where, other)
+        p.cli['24-bit-color'] = val
+        p.expected = 'true' if val == 'always' else 'false'
+        p.why = '--24-bit-color %s on the command line (the deprecated spelling of --true-color) comes before true-color = %s from %s' % (val, other, where)
+        p.nsources = 2
     elif family == 'gcp-value-shape':
         shape, fmt_, other = params
         o, inmain, val, exp = {'bare': ('keep-plus-minus-markers', 'false', None, 'true'),
@@ -667,7 +709,7 @@ def plan(ctx):
         rng = ctx.rng('c13')
         # the small families about interactions between sources (added after seeded changes slipped through a uniform
         # sample) run completely every time; the big product families are sampled
-        small = {'flag-beside-list', 'gcp-bool-spelling', 'gcp-value-shape', 'builtin-named-section', 'no-gitconfig-equals-empty', 'source-beside-unrelated-flag', 'custom-before-builtin', 'named-before-flags'}
+        small = {'flag-beside-list', 'gcp-bool-spelling', 'gcp-value-shape', 'alias-24-bit-color', 'zero-is-a-value', 'builtin-named-section', 'no-gitconfig-equals-empty', 'source-beside-unrelated-flag', 'custom-before-builtin', 'named-before-flags'}
         pinned = [it for it in items if fam[it[1]][0] in small]
         rest = [it for it in items if fam[it[1]][0] not in small]
         rng.shuffle(rest)
